@@ -57,10 +57,11 @@ impl Op {
             Op::Toggle(r, c) => h.toggle(*r, *c),
             Op::ClearRow(r) => h.clear_row(*r),
             Op::ClearCol(c) => h.clear_col(*c),
-            Op::SetRow(r, l) => h.set_row(*r, l.iter()),
-            Op::SetCol(c, l) => h.set_col(*c, l.iter()),
-            Op::InsertRow(r, l) => h.insert_row(*r, l.iter()),
-            Op::InsertCol(c, l) => h.insert_col(*c, l.iter()),
+            // the bulk operations take any iterator: lists of odd length are passed through a lazy adaptor whose size hint has lower bound 0
+            Op::SetRow(r, l) => if l.len() % 2 == 0 { h.set_row(*r, l.iter()) } else { h.set_row(*r, l.iter().filter(|_| true)) },
+            Op::SetCol(c, l) => if l.len() % 2 == 0 { h.set_col(*c, l.iter()) } else { h.set_col(*c, l.iter().skip_while(|_| false)) },
+            Op::InsertRow(r, l) => if l.len() % 2 == 0 { h.insert_row(*r, l.iter()) } else { h.insert_row(*r, l.iter().filter(|_| true)) },
+            Op::InsertCol(c, l) => if l.len() % 2 == 0 { h.insert_col(*c, l.iter()) } else { h.insert_col(*c, l.iter().copied().filter(|_| true)) },
         }
     }
 }
@@ -145,6 +146,34 @@ pub fn run(ctx: &mut Ctx, replay: Option<&[String]>) {
         return;
     }
     let mut rng = Rng::new(ctx.seed, 17);
+    // a matrix with several hundred thousand rows: entries at multiples of 2^16, membership and weights queried around them
+    for k in 0..ctx.scale(6, 60) {
+        let nr = 262_145 + rng.below(70_000);
+        let nc = rng.range(2, 4);
+        let c = rng.below(nc);
+        let rows: Vec<usize> = (1..=4).map(|i| i * 65536 + if k % 3 == 2 { rng.below(3) } else { 0 }).filter(|&r| r < nr).collect();
+        let mut ops = vec![Op::InsertCol(c, rows.clone())];
+        let probe = [0usize, 1, 65535, 65536, 131072, 196608, 262144, 2, 4096];
+        let mut queries: Vec<String> = probe.iter().filter(|&&r| r < nr).map(|r| format!("q:{}:{}", r, c)).collect();
+        let extra = *rng.pick(&[0usize, 1, 2, 65535, 131073]);
+        ops.push(Op::Insert(extra, c));
+        ops.push(Op::Toggle(probe[rng.below(probe.len())], c));
+        queries.push(format!("w:{}", c));
+        queries.push(format!("q:{}:{}", extra, c));
+        let mut h = SparseMatrix::new(nr, nc);
+        let ans = guarded({ let ops = ops.clone(); let queries = queries.clone(); move || {
+            for op in &ops { op.apply(&mut h); }
+            queries.iter().map(|q| {
+                let t: Vec<&str> = q.split(':').collect();
+                match t[0] {
+                    "q" => (h.contains(t[1].parse().unwrap(), t[2].parse().unwrap()) as u8).to_string(),
+                    "w" => h.col_weight(t[1].parse().unwrap()).to_string(),
+                    _ => h.row_weight(t[1].parse().unwrap()).to_string(),
+                }
+            }).collect::<Vec<_>>().join(" ")
+        }}).unwrap_or("panic".into());
+        ctx.emit(&format!("c17 big {} {} {} ? {}", nr, nc, ops.iter().map(|o| o.token()).collect::<Vec<_>>().join(" "), queries.join(" ")), &ans, true, &["very-tall-matrix"]);
+    }
     let n = ctx.scale(1500, 40000);
     let maxdim = ctx.scale(8, 14);
     for case in 0..n {
